@@ -12,5 +12,5 @@ Definition c_validate (s : cstate) (c : ccall) : bool := true.
 Definition c_exec_local (s : cstate) (c : ccall) (i : opid) : option (cstate * op * val) :=
   match c with CInc d => let s' := c_inc s d in Some (s', OInc i d, VNum s') end.
 Definition c_exec_remote (s : cstate) (o : op) : cstate :=
-  match o with OInc _ d => c_inc s d | _ => s end.
+  match o with OInc _ d => c_inc s d | OSnap _ => c_init | _ => s end.
 Definition c_view (s : cstate) : val := VNum s.
